@@ -41,3 +41,4 @@ import E57.Model.MetaTree
 import E57.Proofs.MetaRoundTrip
 import E57.Proofs.XmlRoundTrip
 import E57.Proofs.XmlBridge
+import E57.Proofs.Closed
